@@ -10,7 +10,7 @@ namespace llvm { class Function; }
 namespace vs {
 
 struct PtrAlt { Node* g; uint32_t obj; Node* off; };     // obj 0: not an object (null / plain integer `off`)
-struct PtrVal { std::vector<PtrAlt> alts; };
+struct PtrVal { std::vector<PtrAlt> alts; bool mark = false; };
 struct AggVal;
 struct Value {
   enum Kind : uint8_t { NONE, INT, PTR, AGG } k;
@@ -21,7 +21,7 @@ struct Value {
   static Value A(const AggVal* a) { Value v; v.k = AGG; v.a = a; return v; }
   bool same(const Value& o) const { return k == o.k && n == o.n; }
 };
-struct AggVal { std::vector<Value> el; };
+struct AggVal { std::vector<Value> el; bool mark = false; };
 
 struct Cell { uint32_t off; uint32_t size; Value v; };    // INT: width == size*8 ; PTR: size == 8
 
